@@ -170,6 +170,9 @@ def run_replay(args, mode="replay"):
             out["verdict"] = "fails"
     except h.ReachWitness:
         out["verdict"] = "reached"
+    except h.HarnessTargetMissing as e:
+        out["verdict"] = "target-missing"
+        out["detail"] = repr(e)
     except h.HarnessError as e:
         out["verdict"] = "harness-error"
         out["detail"] = repr(e)
@@ -179,7 +182,7 @@ def run_replay(args, mode="replay"):
         out["verdict"] = "fails"
         out["raised"] = f"{type(e).__name__}: {e}"[:500]
         out["traceback"] = traceback.format_exc()[-2000:]
-        if _harness_target_missing(e):
+        if h.is_harness_fault(e):
             # the HARNESS reached for an internal name the current tree no longer has (renamed private attribute, changed
             # private signature): nothing is known about the property - inconclusive, never a finding
             out["verdict"] = "target-missing"
